@@ -534,11 +534,14 @@ class Interp:
         """Receiver location named by a `&self`-like argument value."""
         if v[0] == "ref":
             loc = v[1]
-            if loc[0] == "L" and not loc[3]:
+            if loc[0] == "L":
                 # a by-value local holding an opaque object *is* that object
                 x = st.mem.get((loc[1], loc[2]))
                 if x is not None and x[0] == "op" and x[1] in self.oploc:
-                    return self.canon(self.oploc[x[1]])
+                    base = self.oploc[x[1]]
+                    for pp in loc[3]:
+                        base = self.add_proj(base, pp)
+                    return self.canon(base)
             return self.canon(loc)
         if v[0] == "op":
             base = self.oploc.get(v[1])
